@@ -88,11 +88,22 @@ def run(prog, run):
     ws = prog.fn(ICP + '::writeStun')
     run.instance(r2)
 
-    def cond_of(f):
-        for i, n in f.all_nodes('cond'):
-            t = f.fmt(n['c'], inline=False)
-            if '65280' in t or '0xff00' in t.lower():
-                return f.fmt(n['c'], inline=False), f.fmt(n['a'], inline=False).split('.')[-1], f.fmt(n['b'], inline=False).split('.')[-1]
+    def cond_of(f, depth=0):
+        """the class-dependent password choice made by f, or by a same-file helper it calls"""
+        for g in [f] + prog.lambdas_in(f):
+            for i, n in g.all_nodes('cond'):
+                t = g.fmt(n['c'], inline=False)
+                if '65280' in t or '0xff00' in t.lower():
+                    return g.fmt(n['c'], inline=False), g.fmt(n['a'], inline=False).split('.')[-1], g.fmt(n['b'], inline=False).split('.')[-1]
+        if depth < 2:
+            for i, n in f.calls():
+                if n.get('op'):
+                    continue
+                for g in prog.callee_fns(f, n):
+                    if g.file == f.file and g.entry is not None and g.id != f.id and 'QString' in (n.get('t') or ''):
+                        r = cond_of(g, depth + 1)
+                        if r:
+                            return r
         return None
     rc, wc = cond_of(hd), cond_of(ws)
     if rc and wc and rc[1:] == ('remotePassword', 'localPassword') and wc[1:] == ('localPassword', 'remotePassword') \
@@ -148,10 +159,18 @@ def run(prog, run):
     else:
         run.ok(r4, hd.loc(good[0]), 'source address mismatch: transaction fed an error, not the response')
     run.instance(r4)
-    atoms_at = [(hd.fmt(c, inline=False), p) for c, p in hd.atomic_assertions_at(good[0])]
-    if any('QXmppStunMessage::id()' in t and ('!pair' in t.replace(' ', '') or True) for t, p in atoms_at) or \
-            any('transaction' in hd.fmt(b['term']['cond'], inline=False) and 'QXmppStunMessage::id()' in hd.fmt(b['term']['cond'], inline=False)
-                for b in hd.blocks.values() if b.get('term') and 'cond' in b['term']):
+    # the lookup of the checked pair compares the id of the pair's outstanding request with the id of the response (in a loop or in the
+    # predicate of a find_if)
+    by_id = False
+    for g in [hd] + prog.lambdas_in(hd):
+        for i in range(len(g.nodes)):
+            bo = g.binop(i)
+            if bo and bo[0] == '==':
+                a, b = g.fmt(bo[1], inline=False), g.fmt(bo[2], inline=False)
+                for x, y in ((a, b), (b, a)):
+                    if 'transaction' in x and x.endswith('QXmppStunMessage::id()') and y.endswith('QXmppStunMessage::id()') and 'transaction' not in y:
+                        by_id = True
+    if by_id:
         run.ok(r4, hd.loc(good[0]), 'pair looked up by request id == response id; no pair => return')
     else:
         run.violation(r4, 'handleDatagram#response-id', hd.loc(good[0]), 'responses are not matched to a check by transaction id')
